@@ -34,7 +34,7 @@ static LHALH1Decoder dec;
 static void reconstruct_tree(LHALH1Decoder *decoder)
 {
 	(void) decoder;
-	CHECK(0, "C09 lh1: reconstruct_tree is not reached while the root count is below the limit");
+	CHECK(0, "lh1: reconstruct_tree is not reached while the root count is below the limit");
 }
 #endif
 
@@ -46,9 +46,9 @@ static void tree_read(int at_limit)
 
 	ok = read_code(&dec, &code);
 	if (ok) {
-		CHECK(code < NUM_CODES, "C09 lh1: decoded symbol is below NUM_CODES");
-		CHECK(dec.num_groups >= 1 && dec.num_groups <= NUM_TREE_NODES, "C09 lh1: group allocator stays inside groups[]");
-		CHECK(dec.nodes[0].freq <= LZ_MAX_FREQ, "C09 lh1: root count stays within the limit");
+		CHECK(code < NUM_CODES, "lh1: decoded symbol is below NUM_CODES");
+		CHECK(dec.num_groups >= 1 && dec.num_groups <= NUM_TREE_NODES, "lh1: group allocator stays inside groups[]");
+		CHECK(dec.nodes[0].freq <= LZ_MAX_FREQ, "lh1: root count stays within the limit");
 #ifdef STUB_REBUILD
 		if (bits_calls == LZ_N - 1) WITNESS("deepest leaf");
 #endif
@@ -94,7 +94,7 @@ void harness_rebuild(void)
 	}
 	ASSUME(leaves == NUM_CODES);
 	reconstruct_tree(&dec);
-	CHECK(dec.num_groups >= 1 && dec.num_groups <= NUM_TREE_NODES, "C09 lh1: group allocator stays inside groups[]");
+	CHECK(dec.num_groups >= 1 && dec.num_groups <= NUM_TREE_NODES, "lh1: group allocator stays inside groups[]");
 	if (!dec.nodes[NUM_TREE_NODES - 3].leaf) WITNESS("a branch node among the last three entries");
 	WITNESS("end");
 }
@@ -110,7 +110,7 @@ void harness_offset(void)
 	init_offset_table(&dec);
 	ok = read_offset(&dec, &result);
 	if (ok) {
-		CHECK(result < RING_BUFFER_SIZE, "C09 lh1: distance field below the ring size");
+		CHECK(result < RING_BUFFER_SIZE, "lh1: distance field below the ring size");
 		if (result == 4095) WITNESS("largest distance");
 	} else {
 		WITNESS("end of data inside the distance field");
@@ -146,9 +146,9 @@ void harness_read(void)
 	init_offset_table(&dec);
 	dec.ringbuf_pos = pos;
 	n = lha_lh1_read(&dec, out);
-	CHECK(n <= MAXREAD, "C09 lh1: read returns at most max_read");
-	CHECK(n <= 60, "C09 lh1: at most 60 bytes per command");
-	CHECK(dec.ringbuf_pos < RING_BUFFER_SIZE, "C09 lh1: write position stays inside the ring");
+	CHECK(n <= MAXREAD, "lh1: read returns at most max_read");
+	CHECK(n <= 60, "lh1: at most 60 bytes per command");
+	CHECK(dec.ringbuf_pos < RING_BUFFER_SIZE, "lh1: write position stays inside the ring");
 	if (n == 60) WITNESS("longest copy");
 	if (n == 1) WITNESS("literal");
 	WITNESS("end");
